@@ -148,8 +148,12 @@ def array_compare(eng, op, a, b):
     k = _join_kind(arrv.kind, ks)
     sz = to_z3(sc, k)
     if left:
-        return SArr(lam(lambda i: f(to_z3(arrv.get(i), k), sz), "bool"), arrv.n, "bool")
-    return SArr(lam(lambda i: f(sz, to_z3(arrv.get(i), k)), "bool"), arrv.n, "bool")
+        out = SArr(lam(lambda i: f(to_z3(arrv.get(i), k), sz), "bool"), arrv.n, "bool")
+    else:
+        out = SArr(lam(lambda i: f(sz, to_z3(arrv.get(i), k)), "bool"), arrv.n, "bool")
+    if isinstance(op, ast.Eq) and getattr(arrv, "diff_of", None) is not None and not isinstance(sc, Sym) and k in ("int", "real"):
+        out.steps_of = (arrv.diff_of, sc)  # `np.diff(a) == c`: remembered for np.all (see _np_all_any)
+    return out
 
 
 def inplace_binop(eng, op, cur, val):
@@ -764,7 +768,9 @@ def _np_diff(eng, args, kwargs):
             raise Unsupported("np.diff of a boolean array")
         used(eng, "np.diff-1d: out[i] = a[i+1] - a[i], max(len - 1, 0) entries, fresh")
         n = a.nz()
-        return SArr(lam(lambda i: a.get(i + 1).z - a.get(i).z, a.kind), z3.simplify(z3.If(n >= 1, n - 1, z3.IntVal(0))), a.kind, name="diff", dtype=a.dtype)
+        out = SArr(lam(lambda i: a.get(i + 1).z - a.get(i).z, a.kind), z3.simplify(z3.If(n >= 1, n - 1, z3.IntVal(0))), a.kind, name="diff", dtype=a.dtype)
+        out.diff_of = a
+        return out
     if isinstance(a, NArr) and a.ndim == 1 and a.kind in ("int", "real"):
         used(eng, "np.diff-1d: out[i] = a[i+1] - a[i], max(len - 1, 0) entries, fresh")
         it = a.items
@@ -783,7 +789,15 @@ def _np_all_any(is_all):
             j = z3.Int(fresh_name("j"))
             t = (lambda x: x.z) if a.kind == "bool" else (lambda x: x.z != 0)
             if is_all:
-                return eng.sbool(z3.ForAll([j], z3.Implies(z3.And(j >= 0, j < a.nz()), t(a.get(j)))))
+                r = eng.sbool(z3.ForAll([j], z3.Implies(z3.And(j >= 0, j < a.nz()), t(a.get(j)))))
+                if getattr(a, "steps_of", None) is not None and isinstance(r, Sym):
+                    # np.all(np.diff(src) == c) for a concrete c: src is the arithmetic progression src[0] + j*c.  The implication needs
+                    # induction over the positions (z3 does none): stated as a named lemma
+                    src, c = a.steps_of
+                    eng.assumptions.add("assumed-lemma:arithmetic-progression: all(np.diff(a) == c) for a constant c implies a[j] = a[0] + j*c for every position j")
+                    jz = to_z3(Sym(j, "int"), src.kind)
+                    eng.assume(z3.Implies(r.z, z3.ForAll([j], z3.Implies(z3.And(j >= 0, j < src.nz()), src.get(j).z == src.get(0).z + jz * to_z3(c, src.kind)))))
+                return r
             return eng.sbool(z3.Exists([j], z3.And(j >= 0, j < a.nz(), t(a.get(j)))))
         if isinstance(a, PList) and a.items is not None:
             items = a.items
